@@ -641,10 +641,16 @@ def projection_session(sid: int, seed: int) -> dict:
     _POOL["atoms"] = None
     inner, outer = rng.choice([(" and ", " or "), (" and ", " or "), (" or ", " and ")])
     branches = []
+    # a marker on a third variable shared by every branch: once the guards are gone, union_simplify / intersect_simplify
+    # factor it out, and the parts on V that remain may cancel (empty intersection / universal union)
+    others = [x for x in strings if x not in (v, w)]
+    shared = gen_group(rng, rng.choice(others)) if rng.random() < 0.25 else gen_atom(rng, rng.choice(others), reversed_ok=False) if rng.random() < 0.35 else None
     for _ in range(rng.choice([2, 2, 3])):
         part = gen_group(rng, v) if rng.random() < 0.6 else gen_atom(rng, v, reversed_ok=False)
         guard = gen_atom(rng, w, reversed_ok=False)
         pair = [part, guard] if rng.random() < 0.7 else [guard, part]
+        if shared is not None:
+            pair.insert(rng.randint(0, 2), shared)
         branches.append("(" + inner.join(pair) + ")")
     whole = s.parse(outer.join(branches))
     regs = [whole] if whole is not None else []
@@ -668,6 +674,59 @@ def projection_session(sid: int, seed: int) -> dict:
         if "extra" in (v, w) and not s.dead:
             s.project("without_extras", r, ["extra"])
     return s.finish(seed + 1)
+
+
+# --------------------------------------------------------------------------- scripted sessions
+# Fixed operation sequences that once exposed a defect (known_findings.json, "fixed"), recorded and validated like every
+# other session: a regression shows up as the same clause again.  Steps: (result, op, operands...).
+SCRIPTS: list[tuple[str, list[tuple]]] = [
+    ("or-with-1-child via exclude (d85fbe4)", [
+        ("C", "parse", 'sys_platform == "linux" or sys_platform == "darwin"'), ("D", "parse", 'platform_machine == "arm64" or implementation_name == "pypy"'),
+        ("A", "parse", 'os_name == "nt"'), ("B", "parse", 'os_name == "posix"'), ("F", "parse", 'python_version >= "3.8"'), ("G", "parse", 'python_version < "3.8"'),
+        ("X", "and", "C", "D"), ("AF", "or", "A", "F"), ("BG", "or", "B", "G"), ("Y1", "and", "AF", "BG"), ("Y", "and", "Y1", "D"),
+        ("M", "or", "X", "Y"), ("R", "exclude", "M", ["python_version"]), ("Rt", "reparse", "R"),
+        ("M2", "or", "Y", "X"), ("R2", "exclude", "M2", ["python_version"]), ("R2t", "reparse", "R2"),
+        ("R3", "only", "M", ["sys_platform", "platform_machine", "implementation_name", "os_name"]), ("R3t", "reparse", "R3")]),
+    ("or-with-1-child via without_extras (d85fbe4)", [
+        ("C", "parse", 'sys_platform == "linux" or sys_platform == "darwin"'), ("D", "parse", 'platform_machine == "arm64" or implementation_name == "pypy"'),
+        ("A", "parse", 'os_name == "nt"'), ("B", "parse", 'os_name == "posix"'), ("F", "parse", 'extra == "foo"'), ("G", "parse", 'extra != "foo"'),
+        ("X", "and", "C", "D"), ("AF", "or", "A", "F"), ("BG", "or", "B", "G"), ("Y1", "and", "AF", "BG"), ("Y", "and", "Y1", "D"),
+        ("M", "or", "X", "Y"), ("R", "without_extras", "M", ["extra"]), ("Rt", "reparse", "R"), ("R2", "exclude", "M", ["extra"])]),
+    ("and-with-1-child (f9a81a3)", [
+        ("P", "parse", 'os_name == "nt" and sys_platform == "win32" or os_name == "nt" and sys_platform != "win32"'), ("Pt", "reparse", "P"),
+        ("a", "parse", 'os_name == "nt"'), ("x", "parse", 'sys_platform == "win32"'), ("nx", "parse", 'sys_platform != "win32"'),
+        ("ax", "and", "a", "x"), ("anx", "and", "a", "nx"), ("U", "or", "ax", "anx"), ("Ut", "reparse", "U"),
+        ("g", "parse", 'os_name == "nt" and sys_platform == "win32" and extra == "foo" or os_name == "nt" and sys_platform != "win32" and extra == "bar"'),
+        ("W", "without_extras", "g", ["extra"]), ("Wt", "reparse", "W"), ("O", "only", "g", ["os_name", "sys_platform"])]),
+    ("version merges (9eb786d, 90673b9, 1f6b13e, 6e97fe3, 3861054)", [
+        ("e1", "parse", 'os_name == "nt" or os_name == "posix"'), ("e2", "parse", 'os_name != "nt"'), ("e", "or", "e1", "e2"),
+        ("f1", "parse", 'python_full_version >= "3.10"'), ("f2", "parse", 'python_full_version ~= "3.10"'), ("f", "and", "f1", "f2"), ("ft", "reparse", "f"),
+        ("g1", "parse", 'python_full_version <= "3.9"'), ("g2", "parse", 'python_version <= "3"'), ("g", "and", "g1", "g2"),
+        ("h1", "parse", 'python_version != "3.8.0"'), ("h2", "parse", 'python_full_version < "3.8.1"'), ("h", "or", "h1", "h2"),
+        ("i1", "parse", 'python_version ~= "3.7.0"'), ("i2", "parse", 'python_full_version != "3.10.*"'), ("i", "or", "i1", "i2"), ("it", "reparse", "i"),
+        ("j", "parse", '"3.8" <= python_version'), ("jt", "reparse", "j")]),
+]
+
+
+def scripted_sessions() -> list[dict]:
+    out = []
+    for k, (_, steps) in enumerate(SCRIPTS):
+        s = MSession(0, 7000 + k)
+        reg: dict[str, int | None] = {}
+        for st in steps:
+            name, op = st[0], st[1]
+            if s.dead:
+                break
+            if op == "parse":
+                reg[name] = s.parse(st[2])
+            elif op in ("and", "or"):
+                reg[name] = s.binop(op, reg.get(st[2]), reg.get(st[3]))
+            elif op == "reparse":
+                reg[name] = s.reparse(reg.get(st[2]))
+            else:
+                reg[name] = s.project(op, reg.get(st[2]), st[3]) if reg.get(st[2]) is not None else None
+        out.append(s.finish(7000 + k))
+    return out
 
 
 def make_batch(args) -> list[dict]:
